@@ -122,7 +122,7 @@ void bloom_filter_alloc<A>::builder::validate_accuracy_inputs(uint64_t max_disti
   if (max_distinct_items == 0) {
     throw std::invalid_argument("maximum number of distinct items must be strictly positive");
   }
-  if (target_false_positive_prob <= 0.0 || target_false_positive_prob > 1.0) {
+  if (!(target_false_positive_prob > 0.0 && target_false_positive_prob <= 1.0)) { // refuses NaN, too
     throw std::invalid_argument("target false positive probability must be a valid probability strictly greater than 0.0");
   }
 }
